@@ -291,6 +291,17 @@ class TaxFlow(Sector):
         self.TaxingSector = taxes_paid_to
         self.TaxRate = taxrate
 
+    @staticmethod
+    def _HasTaxFlow(sector):
+        """
+        Is a tax flow (T) already in the ledger of the sector? (Put there by another TaxFlow of the currency zone.)
+        :param sector: Sector
+        :return: bool
+        """
+        if 'F' not in sector.EquationBlock.Equations:
+            return False
+        return any(term.Term == 'T' for term in sector.EquationBlock['F'].TermList)
+
     def _GenerateEquations(self):
         # Overwrite the tax rate, in case the user sets self.TaxRate directly.
         self.SetEquationRightHandSide('TaxRate', '%0.4f' % (self.TaxRate,))
@@ -309,15 +320,24 @@ class TaxFlow(Sector):
                     tax_name_used = taxrate_name
                 term = '%s * %s' % (tax_name_used, s.GetVariableName('INC'))
                 # The INC variable is pretax.
-                s.AddCashFlow('-T', term, 'Taxes paid.', is_income=False)
+                if self._HasTaxFlow(s):
+                    # Already taxed by another TaxFlow of the currency zone (federal and provincial taxes): there is
+                    # still one T flow in the ledger of the sector, which is the sum of the taxes it pays.
+                    s.AddTermToEquation('T', term)
+                else:
+                    s.AddCashFlow('-T', term, 'Taxes paid.', is_income=False)
                 terms.append(term)
                 #self.AddTermToEquation('T', term)
         self.SetEquationRightHandSide('T', utils.create_equation_from_terms(terms))
         # work on other sectors
         tax_fullname = self.GetVariableName('T')
         gov = self.CurrencyZone.LookupSector(self.TaxingSector)
-        gov.SetEquationRightHandSide('T', tax_fullname)
-        gov.AddCashFlow('T', tax_fullname, 'Tax revenue received.')
+        if self._HasTaxFlow(gov):
+            # The government already receives the taxes of another TaxFlow: one T flow, the sum of its revenues.
+            gov.AddTermToEquation('T', tax_fullname)
+        else:
+            gov.SetEquationRightHandSide('T', tax_fullname)
+            gov.AddCashFlow('T', tax_fullname, 'Tax revenue received.')
 
 
 class MoneyMarket(FinancialAssetMarket):
